@@ -103,6 +103,8 @@ def _dep_cases(rng, n):
         for k2 in mem:
             for base in (32, 64):
                 for d in (-33, -32, -31, -1, 0, 1, 31, 32, 33):
+                    if base + d < 0:
+                        continue
                     for ln in ((0, 1, 32, 33, None) if "keccak" in k1 + k2 else (32,)):
                         cases.append((k1, k2, base, base + d, ln, ln))
     for k1 in sto:
